@@ -593,6 +593,11 @@ class PybindWrapper:
             args_signature = self._method_args_signature(function.args)
 
             caller = namespace + "::"
+            if isinstance(function, instantiator.InstantiatedGlobalFunction) \
+                    and function.parent:
+                # A typedef can be in another namespace than the template.
+                caller = "::".join(
+                    function.parent.full_namespaces()[1:]) + "::"
             function_call = ('{opt_return} {caller}{function_name}'
                              '({args_names});'.format(
                                  opt_return='return'
